@@ -4,6 +4,7 @@
   `fake!`/`async_*!` (Model/Sig.lean: token level, lifetimes not rendered).
 -/
 import InjModel.Lemmas.Sig
+import InjModel.Lemmas.SigInj
 namespace Inj.Props
 open Inj Inj.Sig
 
@@ -17,6 +18,18 @@ theorem C09_source : Generated.Layout.rawGateBeforeGuard = true ∧ Generated.La
 /-- **The gate is exactly equality of the recorded renderings.** -/
 theorem C09_gate (a b : List Tok) : gate a b = true ↔ a = b := by
   unfold gate; exact beq_iff_eq
+
+/-- **The rendering is injective on the whole grammar** (primitive/path types, references and raw
+    pointers of either mutability, tuples incl. 1-tuples, slices, arrays, generic applications,
+    `dyn Fn(..) -> ..`, nested function pointers of any unsafety and ABI): two function-pointer
+    types print the same token list only if they are the same type. -/
+theorem C09_render_injective (a b : FnTy) (h : renderFn a = renderFn b) : a = b :=
+  renderFn_injective a b h
+
+/-- **Accept iff structurally identical** — for all function-pointer types of the grammar. -/
+theorem C09_gate_iff (a b : FnTy) : gate (renderFn a) (renderFn b) = true ↔ a = b := by
+  rw [C09_gate]
+  exact ⟨C09_render_injective a b, fun h => by rw [h]⟩
 
 /-- every rendered function-pointer type contains the `fn` keyword: it is never the empty text -/
 theorem renderFn_ne_nil (f : FnTy) : renderFn f ≠ [] := by
@@ -65,6 +78,8 @@ end Inj.Props
 
 #print axioms Inj.Props.C09_source
 #print axioms Inj.Props.C09_gate
+#print axioms Inj.Props.C09_render_injective
+#print axioms Inj.Props.C09_gate_iff
 #print axioms Inj.Props.renderFn_ne_nil
 #print axioms Inj.Props.C09_unchecked_mix
 #print axioms Inj.Props.C09_same_accepted
